@@ -56,7 +56,7 @@ Z_SETTINGS = ((16, 1, "-"), (12, 1, "every:3000"), (10, 0, "-"), (13, 1, "every:
 
 GZ_PLANS = (("-", "f1"), ("nchx", "s3,f4000,s60000,f1"))
 
-def containers(rng, payload, rle_enc, tier, z_streams=(), gz_members=(), pp_files=()):
+def containers(rng, payload, rle_enc, tier, z_streams=(), gz_members=(), pp_files=(), arc_streams=()):
     """(tag, bytes) for every encoder setting we can produce independently"""
     out = []
     for eff, g in zip(("9-9-9-9", "9-10-12-13"), pp_files):
@@ -86,6 +86,8 @@ def containers(rng, payload, rle_enc, tier, z_streams=(), gz_members=(), pp_file
         # member names of 4 characters and varying time stamps: the header checksum byte takes many values
         out.append(("lha-lh0-%d" % t, lha0_file(rng.choice(("song", "ode2", "tune", "a.md")), payload, 0x50000000 + rng.randrange(1 << 24))))
     packed = rle_enc(payload)
+    for meth, z in arc_streams:
+        out.append(("arc-%s-modelwriter" % {8: "crunched", 9: "squashed"}[meth], arc_file([("SONG.MOD", meth, z, payload)])))
     out.append(("arc-stored", arc_file([("SONG.MOD", 2, payload, payload)])))
     out.append(("arc-rle90", arc_file([("SONG.MOD", 3, packed, payload)])))
     out.append(("arc-readme-then-rle90", arc_file([("README", 2, readme, readme), ("SONG.MOD", 3, packed, payload)])))
@@ -333,12 +335,80 @@ def pp_leg(ck, tier, rng, stats, rp):
                               "broken": "correspondence: Model/PP20.v (pp_unpack) vs src/depackers/ppdepack.c" + ("; the file was written by the proved writer for a known payload: C08 is violated on this input" if want is not None else "")}, key="c08:pp20:%s:%s" % (tag.split(":")[0], bad.split(",")[0][:40]))
             else: ck.nontrivial(("pp20", mode, z))
 
+# ---------------------------------------------------------------------------------------------------------------------------
+# ARC / Spark / ArcFS LZW methods: the extracted model (Model/ArcLzw.v) against arc_unpack itself.
+
+def arc_members(b):
+    """(method, original size, packed stream) of the members of a classic ARC / Spark archive"""
+    pos = 0; res = []
+    while pos + 29 <= len(b) and b[pos] == 0x1a and b[pos + 1] != 0:
+        meth = b[pos + 1]; csize = struct.unpack_from("<I", b, pos + 15)[0]; osize = struct.unpack_from("<I", b, pos + 25)[0]
+        start = pos + 29 + (12 if meth & 0x80 else 0)
+        res.append((meth, osize, b[start:start + csize])); pos = start + csize
+    return res
+
+def arclzw_leg(ck, tier, rng, stats, rp):
+    model = V.ocaml_build("arclzw"); drv = V.build_driver("arc_drv", ["arc_drv.c"]); env = V.san_env()
+    st = stats.setdefault("arclzw", {"writer_streams": 0, "corpus_members": 0, "mutants": 0, "model_rejects": 0, "bytes_compared": 0})
+    cases = []          # (tag, method, dest_len, stream, expected)
+    if rp:
+        cases = [(rp["tag"], rp["method"], rp["dest_len"], bytes.fromhex(rp["z"]), None)]
+    else:
+        base = open(os.path.join(V.REPO, "test-dev", "data", "ode2ptk.mod"), "rb").read()
+        pays = [("ode2ptk.mod", base), ("head", base[:4000]), ("one", b"a"), ("two", b"ab"), ("run", b"a" * 3000), ("random", bytes(rng.randrange(256) for _ in range(6000))),
+                ("period", b"abcabcabc" * 300), ("markers", b"\x90" * 50 + b"x" * 300 + b"\x90"), ("random-big", bytes(rng.randrange(256) for _ in range(40000)))]
+        files = [f for f in V.corpus_files() if 2000 < os.path.getsize(f) < 60000 and f.lower().endswith((".mod", ".xm", ".s3m", ".it"))]
+        for f in sorted(rng.sample(files, min(len(files), 2 if tier == "quick" else 25))): pays.append((os.path.relpath(f, V.REPO), open(f, "rb").read()))
+        req = []; meta = []
+        for name, data in pays:
+            for (m, w) in ((8, 12), (9, 13), (127, 9), (127, 12), (127, 16)) + (() if tier == "quick" else ((127, 10), (127, 11), (127, 13), (127, 14), (127, 15))):
+                req.append("P %d %d %s" % (m, w, data.hex())); meta.append(("writer:%s/m%d/w%d" % (name, m, w), m, data))
+        out = V.run([model], inp="\n".join(req) + "\n", timeout=3000).stdout.split("\n")
+        for (tag, m, data), l in zip(meta, out):
+            w = l.split()
+            if len(w) != 2 or w[0] != "A": raise V.BuildError("arc lzw writer: unexpected output %r" % l[:80])
+            cases.append((tag, m, len(data), bytes.fromhex(w[1]), data)); st["writer_streams"] += 1
+        dd = os.path.join(V.REPO, "test-dev", "data")
+        for f in sorted(os.listdir(dd)):
+            fp = os.path.join(dd, f)
+            if os.path.isfile(fp) and os.path.getsize(fp) < 2000000 and open(fp, "rb").read(1) == b"\x1a":
+                for meth, osize, z in arc_members(open(fp, "rb").read()):
+                    if (meth & 0x7f) in (8, 9, 127) and osize < 3000000: cases.append(("corpus:%s" % f, meth & 0x7f, osize, z, None)); st["corpus_members"] += 1
+        for tag, m, n, z, _ in list(cases):
+            for _ in range(3 if tier == "quick" else 12):
+                b = bytearray(z); k = rng.random()
+                if len(b) < 3: continue
+                if k < 0.6: b[rng.randrange(len(b))] ^= 1 << rng.randrange(8)
+                elif k < 0.8: del b[rng.randrange(1, len(b)):]
+                else: b += bytes(rng.randrange(256) for _ in range(3))
+                cases.append(("mutant:" + tag, m, rng.choice((n, n, n, n + 1, max(0, n - 1))), bytes(b), None)); st["mutants"] += 1
+    mo = V.run([model], inp="".join("U %d %d %s\n" % (m, n, z.hex() or "-") for _, m, n, z, _ in cases), timeout=3000).stdout.split("\n")
+    r = V.run([drv], inp="".join("%d 0 %d %s\n" % (m, n, z.hex() or "-") for _, m, n, z, _ in cases), env=env, timeout=3000)
+    co = r.stdout.split("\n")
+    if r.returncode != 0:
+        k = len([l for l in co if l.startswith("RET")]); ck.violation({"engine": "arclzw", "tag": cases[min(k, len(cases) - 1)][0], "broken": "sanitizer report / crash in arc_unpack", "stderr": r.stderr[-2000:]}, key="c08-arclzw-crash")
+    for k, (tag, m, n, z, want) in enumerate(cases):
+        if k >= len(co) or not co[k].startswith("RET"): break
+        ck.count(); mm = mo[k].split(); mv = None if mm[0] == "FAIL" else (bytes.fromhex(mm[1]) if mm[1] != "-" else b"")
+        if want is not None and mv != want: raise V.BuildError("the extracted arc_unpack (pack ...) differs from the payload for %s: the round-trip theorem would be false" % tag)
+        if mv is None: st["model_rejects"] += 1
+        w = co[k].split(); cv = None if w[1] != "0" else w[2]; bad = None
+        if cv is None and mv is not None: bad = "arc_unpack fails, the model unpacks %d bytes" % len(mv)
+        elif cv is not None and mv is None: bad = "arc_unpack succeeds, the model refuses the stream"
+        elif cv is not None:
+            st["bytes_compared"] += len(mv)
+            if cv != (("md5:" + hashlib.md5(mv).hexdigest()) if len(mv) > 65536 else (mv.hex() or "-")): bad = "arc_unpack and the model unpack different bytes"
+        if bad:
+            ck.violation({"engine": "arclzw", "tag": tag, "method": m, "dest_len": n, "z": z.hex() if len(z) < 200000 else None, "what": bad,
+                          "broken": "correspondence: Model/ArcLzw.v vs src/depackers/arc_unpack.c (method %d)" % m + ("; the stream was written by the model's writer for a known payload: C08 is violated on this input" if want is not None else "")}, key="c08:arclzw:%d:%s" % (m, bad.split(",")[0][:30]))
+        else: ck.nontrivial(("arclzw", m, n, z))
+
 def main():
     tier = sys.argv[1] if len(sys.argv) > 1 else "quick"
     replay = sys.argv[sys.argv.index("--replay") + 1] if "--replay" in sys.argv else None
     ck = V.Check("C08", tier)
     rng = ck.rng
-    ck.proof_leg(["Extract/Extract_rle90.vo", "Extract/Extract_lzw.vo", "Extract/Extract_inflate.vo", "Extract/Extract_pp20.vo"])
+    ck.proof_leg(["Extract/Extract_rle90.vo", "Extract/Extract_lzw.vo", "Extract/Extract_inflate.vo", "Extract/Extract_pp20.vo", "Extract/Extract_arclzw.vo"])
     drv = V.build_driver("c07_drv", ["c07_drv.c"])
     model = V.ocaml_build("rle90")
     env = V.san_env()
@@ -349,7 +419,7 @@ def main():
     stats = {"payloads": 0, "containers": 0, "by_kind": {}, "rle90_streams": 0, "rle90_ratio_min": 1.0}
     try:
         rp = json.load(open(replay)) if replay else None
-        if rp and rp.get("engine") in ("lzw", "inflate", "pp20"):
+        if rp and rp.get("engine") in ("lzw", "inflate", "pp20", "arclzw"):
             pay = []
         elif rp:
             pay = [(rp["payload_name"], bytes.fromhex(rp["payload_hex"]) if rp.get("payload_hex") else open(os.path.join(V.REPO, rp["payload_file"]), "rb").read())]
@@ -396,12 +466,20 @@ def main():
             w = l.split()
             if len(w) != 3 or w[0] != "PP" or w[1] != "1": raise V.BuildError("pp20 writer: unexpected output %r" % l[:80])
             p_all.setdefault(i, []).append(bytes.fromhex(w[2]))
+        amodel = V.ocaml_build("arclzw")
+        areq = [(i, m) for i, (_, p) in enumerate(pay) if len(p) <= 130000 for m in (8, 9)]
+        aout = V.run([amodel], inp="".join("P %d 0 %s\n" % (m, pay[i][1].hex()) for i, m in areq), timeout=3000).stdout.split("\n")
+        a_all = {}
+        for (i, m), l in zip(areq, aout):
+            w = l.split()
+            if len(w) != 2 or w[0] != "A": raise V.BuildError("arc lzw writer: unexpected output %r" % l[:80])
+            a_all.setdefault(i, []).append((m, bytes.fromhex(w[1])))
         jobs = []       # (payload index, tag, path)
         for i, (name, payload) in enumerate(pay):
             stats["payloads"] += 1
             bare = os.path.join(tmpd, "p%03d.bin" % i); open(bare, "wb").write(payload); jobs.append((i, "bare", bare))
             stats["rle90_streams"] += 1; stats["rle90_ratio_min"] = min(stats["rle90_ratio_min"], round(len(packed_all[i]) / max(1, len(payload)), 3))
-            for tag, blob in containers(rng, payload, lambda p, i=i: packed_all[i], tier, z_all.get(i, ()), g_all.get(i, ()), p_all.get(i, ())):
+            for tag, blob in containers(rng, payload, lambda p, i=i: packed_all[i], tier, z_all.get(i, ()), g_all.get(i, ()), p_all.get(i, ()), a_all.get(i, ())):
                 p = os.path.join(tmpd, "c%03d-%s" % (i, tag)); open(p, "wb").write(blob); jobs.append((i, tag, p))
         inp = "".join("LP %s\nTP %s\nTF %s\n" % (p, p, p) for _, _, p in jobs)
         r = V.run([drv, "load"], inp=inp, env=env, timeout=6000)
@@ -439,6 +517,8 @@ def main():
         if r.returncode != 0:
             k = len(blocks) // 3; j = jobs[min(k, len(jobs) - 1)]
             ck.violation({"payload_name": pay[j[0]][0], "container": j[1], "broken": "sanitizer report / crash while unpacking", "stderr": r.stderr[-2000:]}, key="c08-crash")
+        if not rp or rp.get("engine") == "arclzw":
+            arclzw_leg(ck, tier, rng, stats, rp if rp and rp.get("engine") == "arclzw" else None)
         if not rp or rp.get("engine") == "pp20":
             pp_leg(ck, tier, rng, stats, rp if rp and rp.get("engine") == "pp20" else None)
         if not rp or rp.get("engine") == "inflate":
